@@ -25,6 +25,8 @@ ASSUMPTIONS = [
     'bundles have >= 1 octet (scapy builds no payload layer from zero octets and a bundle is never empty)',
     'without an MTU a bundle beyond the 20-bit message length limit must still leave as well-formed messages (pinned cases around 2^20)',
     'between two segments less than the 1 s receive timeout passes on the virtual clock (gap_ms 0, 300 or 900); the whole transfer may take longer',
+    '(public) vlib/simether.py models packet(7): every packet socket bound to an interface gets its own copy of a frame received for the '
+    'station, the sending host shows a sent frame to its other packet sockets as outgoing, short frames are padded to the Ethernet minimum',
 ]
 EXHAUSTIVE_PART = 'all arrival permutations of the segments of enumerated transfers with <= 5 segments'
 
@@ -141,8 +143,23 @@ def codec_cases(draw):
     return {'kind': 'codec', 'msgs': msgs, 'zero_pad': draw(st.sampled_from([0, 0, 1, 7]))}
 
 
+@st.composite
+def public_cases(draw):
+    ''' Two whole BTP-U agents on one simulated Ethernet segment (vlib/simether.py), driven only through their D-Bus
+    methods: listen(), send_bundle_data(), recv_bundle_get_queue(), recv_bundle_pop_data(). '''
+    mtu = draw(st.sampled_from([None, 64, 100, 300, 1200]))
+    sends = []
+    for _ in range(draw(st.integers(1, 4))):
+        # who sends (0 = agent A, 1 = agent B), length, content seed
+        sends.append([draw(st.sampled_from([0, 0, 1])), draw(st.sampled_from([1, 10, 40, 59, 60, 61, 120, 500, 2000])), draw(st.integers(0, 99))])
+    return {'kind': 'public', 'mtu': mtu, 'sends': sends, 'arrival': draw(st.lists(st.integers(0, 30), max_size=20)),
+            'pump_between': draw(st.booleans()),
+            # an agent may call listen() only after its first own send (the sending socket exists by then)
+            'listen_late': draw(st.sampled_from([[], [], [0], [1], [0, 1]]))}
+
+
 def strategy(tier):
-    return st.one_of(transfer_cases(), transfer_cases(), codec_cases())
+    return st.one_of(transfer_cases(), transfer_cases(), codec_cases(), public_cases())
 
 
 def enumerate_cases(tier):
@@ -158,6 +175,8 @@ def enumerate_cases(tier):
 
 
 def pinned_cases():
+    yield 'public-both-ways', {'kind': 'public', 'mtu': 100, 'sends': [[0, 40, 1], [1, 10, 2], [0, 500, 3], [1, 120, 4]],
+                               'arrival': [1, 0, 2, 0], 'pump_between': True}
     yield 'three-segments-reversed', {'kind': 'transfer', 'mtu': 64, 'length': 120, 'seed': 1, 'xfer': 65536, 'other': 'number',
                                       'arrival': [2, 1, 0, 0, 0, 0]}
     for length in (2 ** 20 - 5, 2 ** 20 - 1, 2 ** 20, 2 ** 20 + 7):
@@ -382,8 +401,110 @@ def run_codec(case, out):
         out.label('type:%d' % msg['type'], 'hints:%d' % len(msg['hints']))
 
 
+def run_public(case, out):
+    from vlib import simloop, simether, strat9174, tcpcl_world as tw
+    import dbus
+    import btpu.config
+    simloop.reset()
+    dbus.RECORDER.reset()
+    simether.NET.reset()
+    agent_mod = simether.install()
+    macs = [bytes.fromhex('020000000001'), bytes.fromhex('020000000002')]
+    agents = []
+    for idx in range(2):
+        ctx = simloop.Context('btpu-%d' % idx)
+        simether.NET.add_host(ctx, 'host%d' % idx, {'eth0': macs[idx]})
+        cfg = btpu.config.Config(node_id='dtn://b%d/' % idx, mtu_default=case['mtu'])
+        with simloop.entered(ctx):
+            agent = agent_mod.Agent(cfg)
+        agents.append((ctx, agent))
+    listening = set()
+
+    def listen(idx):
+        if idx in listening:
+            return
+        listening.add(idx)
+        res = tw.dbuscall(agents[idx][0], agents[idx][1], 'listen', 'eth0', dbus.Dictionary({}, signature='sv'))
+        if hasattr(res, 'exc'):
+            out.fail('listen-raises:%s' % res.name, 'listen("eth0") failed: %s' % res.exc)
+    late = set(case.get('listen_late') or [])
+    for idx in range(2):
+        if idx not in late or not any(s[0] == idx for s in case['sends']):
+            listen(idx)
+
+    def pump():
+        choices = list(case.get('arrival', []))
+        for _ in range(10000):
+            moved = False
+            for ctx, _agent in agents:
+                while ctx.iterate():
+                    moved = True
+            if simether.NET.inflight:
+                pick = choices.pop(0) % len(simether.NET.inflight) if choices else 0
+                simether.NET.deliver(simether.NET.inflight.pop(pick))
+                moved = True
+            if not moved:
+                return
+
+    expected = {0: [], 1: []}      # receiver index -> bundles it must end up with
+    for who, length, seed in case['sends']:
+        data = strat9174.content(length, seed * 7 + len(expected[0]) + len(expected[1]))
+        ctx, agent = agents[who]
+        params = dbus.Dictionary({'address': ':'.join('%02x' % b for b in macs[1 - who]), 'local_if': 'eth0'}, signature='sv')
+        res = tw.dbuscall(ctx, agent, 'send_bundle_data', dbus.ByteArray(data), params)
+        if hasattr(res, 'exc'):
+            out.fail('send-raises:%s' % res.name, 'send_bundle_data(%d octets) failed: %s' % (length, res.exc))
+            continue
+        for ctx_x, _a in agents:
+            while ctx_x.iterate():      # the frames leave before anything else happens (they are in flight then)
+                pass
+        listen(who)
+        if (1 - who) in listening:
+            expected[1 - who].append(data)
+        else:
+            # nobody listens there yet: the frames are lost on the segment, which is not the agent's doing
+            simether.NET.inflight[:] = [it for it in simether.NET.inflight if it['src_host'] != 'host%d' % who]
+            out.label('public:sent-to-deaf-peer')
+        if case.get('pump_between'):
+            pump()
+    pump()
+    for idx, (ctx, agent) in enumerate(agents):
+        for esc in ctx.escapes:
+            out.fail('escape:%s@%s' % (esc.exc_type, esc.frame), 'exception escaped a main-loop callback of agent %d: %s: %s'
+                     % (idx, esc.exc_type, esc.exc_msg[:120]))
+        fin = [e for e in dbus.RECORDER.events if e['kind'] == 'signal' and e['obj'] is agent and e['member'] == 'recv_bundle_finished']
+        queue = tw.dbuscall(ctx, agent, 'recv_bundle_get_queue')
+        got = []
+        for bid in list(queue) if not hasattr(queue, 'exc') else []:
+            res = tw.dbuscall(ctx, agent, 'recv_bundle_pop_data', str(bid))
+            got.append(None if hasattr(res, 'exc') else bytes(res))
+        want = expected[idx]
+        where = 'agent %d, mtu %s, sends %s, %d finished signals' % (idx, case['mtu'], case['sends'], len(fin))
+        if sorted(got, key=repr) != sorted(want, key=repr):
+            extra = len(got) - len(want)
+            kind = 'queued-more-than-once' if extra > 0 and all(g in want for g in got) else \
+                ('bundle-not-queued' if extra < 0 and all(g in want for g in got) else 'queued-data-differs')
+            out.fail('public:' + kind, 'every frame was delivered once: the receiver queued %d bundle(s), %d were sent to it (%s)'
+                     % (len(got), len(want), where))
+        if len(fin) != len(got):
+            out.fail('public:finished-signals', '%d recv_bundle_finished signals for %d queued bundles (%s)' % (len(fin), len(got), where))
+    for item in simether.NET.sent_log:
+        if case['mtu'] is not None and item['unpadded'] - 14 > case['mtu']:
+            out.fail('frame-exceeds-mtu', 'a frame with %d octets of payload was sent, MTU %d' % (item['unpadded'] - 14, case['mtu']))
+    for ev in dbus.RECORDER.events:
+        if ev.get('error') and ev['kind'] in ('signal', 'return'):
+            out.fail('does-not-marshal:%s' % ev['member'], '%s %s does not fit %r: %s' % (ev['kind'], ev['member'], ev.get('signature'), ev['error']))
+    both = len(set(s[0] for s in case['sends'])) == 2
+    out.nontrivial = any(s[1] > 60 for s in case['sends'])
+    out.label('public', 'public:both-directions' if both else 'public:one-direction')
+    out.count('public-frames', len(simether.NET.sent_log))
+
+
 def execute(case):
     out = Outcome()
+    if case['kind'] == 'public':
+        run_public(case, out)
+        return out
     if case['kind'] == 'codec':
         run_codec(case, out)
     else:
